@@ -134,6 +134,10 @@ def run(ctx):
                     for x in ast.walk(w):
                         if isinstance(x, ast.Call) and isinstance(x.func, ast.Name) and x.func.id in m.all_param_names:
                             held_sites.append((m, x, fld))
+                        if isinstance(x, ast.Call) and isinstance(x.func, ast.Attribute) and isinstance(x.func.value, ast.Name) and x.func.value.id == 'self' and \
+                                roles.cls.lookup(x.func.attr) is not None and roles.calls_wrapped(roles.cls.lookup(x.func.attr)) is not None and \
+                                any(isinstance(a, ast.Name) and a.id in m.all_param_names for a in x.args):
+                            held_sites.append((m, x, fld))
                         if isinstance(x, ast.With) and x is not w:
                             for it2 in x.items:
                                 c2 = it2.context_expr
